@@ -58,6 +58,17 @@ impl Ev {
     }
 }
 
+#[derive(Clone, Copy, Debug)]
+pub struct FaRec {
+    pub t: u64,
+    pub frame: i32,
+    pub fa: i32,
+    /// network_stats() of the first remote: ping (-1 = no numbers), local/remote frames behind
+    pub ping: i64,
+    pub lfb: i32,
+    pub rfb: i32,
+}
+
 #[derive(Clone, Debug)]
 pub struct Viol {
     pub prop: &'static str,
@@ -198,8 +209,13 @@ pub struct Node {
     pub final_hash: Vec<u64>,
     /// (virtual time, game frame) at every tick on which the frame changed
     pub frame_times: Vec<(u64, i32)>,
-    /// (time, current frame, frames_ahead) after every Ok advancing call (only if log_fa)
-    pub fa_log: Vec<(u64, i32, i32)>,
+    /// time-sync observations after every Ok advancing call (only if log_fa)
+    pub fa_log: Vec<FaRec>,
+    /// results of network_stats() sampled at every tick (only if log_fa): first Ok time, errors seen before
+    /// (time, local_frames_behind) after every tick incl. poll-only ticks, once stats are available (only if log_fa)
+    pub lfb_log: Vec<(u64, i32)>,
+    pub stats_first_ok: Option<u64>,
+    pub stats_errs_before_ok: BTreeMap<String, u64>,
     pub spec_adv_log: Vec<(usize, usize)>,
     pub action_log: Vec<(usize, String)>,
     pub api_hash: u64,
@@ -299,6 +315,9 @@ fn new_node(idx: usize, addr: Addr, is_spec: bool, host: Option<usize>, locals: 
         final_hash: vec![],
         frame_times: vec![],
         fa_log: vec![],
+        lfb_log: vec![],
+        stats_first_ok: None,
+        stats_errs_before_ok: BTreeMap::new(),
         spec_adv_log: vec![],
         action_log: vec![],
         api_hash: 0,
@@ -657,6 +676,11 @@ impl<P: Pred> World<P> {
                         return;
                     }
                     let snap = (sess.current_frame(), sess.confirmed_frame(), sess.verif_connect_status(), sess.frames_ahead());
+                    if core.log_fa {
+                        let rh = sess.remote_player_handles().into_iter().min();
+                        let st = rh.and_then(|h| sess.network_stats(h).ok());
+                        core.nodes[ni].fa_log.push(FaRec { t, frame: snap.0, fa: snap.3, ping: st.map(|s| s.ping as i64).unwrap_or(-1), lfb: st.map(|s| s.local_frames_behind).unwrap_or(0), rfb: st.map(|s| s.remote_frames_behind).unwrap_or(0) });
+                    }
                     core.after_p2p_call::<P>(ni, t, pre, snap);
                     if !core.viols.is_empty() {
                         return;
@@ -681,6 +705,23 @@ impl<P: Pred> World<P> {
         }
         if gf >= target && n.reached_target_at.is_none() && sess.confirmed_frame() >= target - 1 {
             n.reached_target_at = Some(t);
+        }
+        if core.log_fa {
+            if let Some(h) = sess.remote_player_handles().into_iter().min() {
+                match sess.network_stats(h) {
+                    Ok(st) => {
+                        if n.stats_first_ok.is_none() {
+                            n.stats_first_ok = Some(t);
+                        }
+                        n.lfb_log.push((t, st.local_frames_behind));
+                    }
+                    Err(e) => {
+                        if n.stats_first_ok.is_none() {
+                            *n.stats_errs_before_ok.entry(err_name(&e)).or_default() += 1;
+                        }
+                    }
+                }
+            }
         }
         let sz = sess.verif_sizes();
         n.sizes.absorb(&sz);
@@ -952,9 +993,7 @@ impl Core {
         let sparse = self.scn.sparse && mp > 0;
         let addr = self.nodes[ni].addr;
         let gframe = self.nodes[ni].game.frame();
-        if self.log_fa {
-            self.nodes[ni].fa_log.push((t, cur, fa));
-        }
+        let _ = fa;
         let new_frame = gframe == pre + 1;
         if new_frame {
             self.obs.new_frames += 1;
